@@ -19,6 +19,8 @@
   (table <pair> (<column> ...))    -> (<wf> <verdict> <text> <decoded>)    pair: csv | records | columns
                                       <text>: (<code point> ...) of the csv text, `none` for the JSON pairs
                                       <decoded>: same | differs | refused     model decode of the model encoding vs the table
+  (columnsdoc ((<name> ((<label> <cell>) ...)) ...)) -> (ok ((<name> (<cell> ...)) ...)) | refused     a client's columns-layout
+                                      document through the plain application/json decoder (rows in document order)
   (csvread <text>)                 -> ((<field> ...) ...)                  the record / field tokeniser of read_csv
   (infer (<field> ...))            -> (<numbers|bools|texts> (<cell> ...)) type inference of one column
   (schemas <keyed> (<frame> ...))  -> (<result> ...)      Pandas.Schema.from_frame over the frames of one process
@@ -236,6 +238,20 @@ def stepC19 : Sexp → Sexp
       | "records" => .list [Sexp.ofBool t.wf, ofVerdict (t.jsonVerdict false), .atom "none", decoded t (jsonDecode t.jsonRecords)]
       | "columns" => .list [Sexp.ofBool t.wf, ofVerdict (t.jsonVerdict true), .atom "none", decoded t (jsonDecode t.jsonColumns)]
       | _ => .atom "bad-op"
+    | none => .atom "bad-op"
+  | .list [.atom "columnsdoc", .list ms] =>
+    let member? : Sexp → Option (Str × JVal) := fun m => match m with
+      | .list [n, .list cells] => do
+        let cs ← cells.mapM fun c => match c with
+          | .list [l, v] => do pure ((← str? l), jsonCell false (← val? v))
+          | _ => none
+        pure ((← str? n), JVal.obj cs)
+      | _ => none
+    match ms.mapM member? with
+    | some ms =>
+      match jsonDecode (.obj ms) with
+      | some f => .list [.atom "ok", .list (f.map fun c => .list [ofStr c.1, .list (c.2.map ofVal)])]
+      | none => .atom "refused"
     | none => .atom "bad-op"
   | .list [.atom "csvread", t] =>
     match str? t with
